@@ -185,6 +185,21 @@ pub async fn on_did_close_document(
     if module_info.is_none() {
         drop(analysis);
         let mut mut_analysis = context.analysis().write().await;
+        // The read lock was released in between: a workspace reload that was waiting for the
+        // write lock may have registered the file as a module by now. Decide again under the
+        // write lock, otherwise a file the reload has just loaded is removed.
+        let still_no_module = match mut_analysis.get_file_id(uri) {
+            Some(file_id) => mut_analysis
+                .compilation
+                .get_db()
+                .get_module_index()
+                .get_module(file_id)
+                .is_none(),
+            None => false,
+        };
+        if !still_no_module {
+            return Some(());
+        }
         mut_analysis.remove_file_by_uri(uri);
         drop(mut_analysis);
 
